@@ -428,3 +428,48 @@ Section TagMid.
         exists c0. split; [exact V|]. subst c. reflexivity.
   Qed.
 End TagMid.
+
+(* ---- C10: moving an unused TAG declaration ---- *)
+Lemma fold_add_new_prefix l : forall acc, exists r, fold_left add_new l acc = acc ++ r.
+Proof.
+  induction l as [|x l IH]; intro acc; simpl.
+  - exists []. rewrite app_nil_r. reflexivity.
+  - unfold add_new at 2. destruct (existsb (beq x) acc).
+    + apply IH.
+    + destruct (IH (acc ++ [x])) as [r Hr]. exists (x :: r). rewrite Hr, <- app_assoc. reflexivity.
+Qed.
+
+Section TagMove.
+  Variable path_props : coords -> option (list bytes).
+  Variable body_text : coords -> bytes.
+  Variable banned : list kind.
+  Notation build := (build path_props body_text banned).
+
+  Theorem tag_moved_lemma first a t b1 b2 c :
+    tree_kids t = [] -> tag_node t = true -> kind_in KTAG banned = false ->
+    let n := named (tree_dir t) (bs "TagName") in
+    (forall p, In p (positions_all ((first :: a) ++ b1 ++ b2)) -> tag_step_ok n (fst p) (snd p)) ->
+    build ((first :: a) ++ t :: b1 ++ b2) = COk c ->
+    exists c', build ((first :: a ++ b1) ++ t :: b2) = COk c' /\
+      Permutation (c_tags c) (c_tags c') /\
+      c_servers c' = c_servers c /\ c_types c' = c_types c /\ c_enums c' = c_enums c /\ c_inters c' = c_inters c /\
+      c_info c' = c_info c /\ c_jsight c' = c_jsight c.
+  Proof.
+    intros Hl Hen Hb n Hok Hc.
+    apply (tag_inserted_lemma path_props body_text banned first a t (b1 ++ b2) c Hl Hen Hb Hok) in Hc
+      as [c0 [l1 [l2 [Hc0 [Hn [Hfresh [Htags [HK ->]]]]]]]].
+    assert (Hforest : (first :: a) ++ b1 ++ b2 = (first :: a ++ b1) ++ b2) by (simpl; rewrite app_assoc; reflexivity).
+    rewrite Hforest in Hc0, Hok, Hfresh.
+    destruct (catalog_keys_lemma _ _ _ _ _ Hc0) as [_ [_ [_ [Kt _]]]].
+    destruct (fold_add_new_prefix (auto_uses (positions_all ((first :: a ++ b1) ++ b2)))
+                (map fst (map tag_entry (filter tag_node ((first :: a ++ b1) ++ b2))))) as [r Hr].
+    rewrite Hr, filter_app, !map_app, <- app_assoc in Kt.
+    destruct (split_at_keys _ _ _ Kt) as [m1 [m2 [Hm Hmk]]].
+    exists (upd_tags c0 (m1 ++ tag_entry t :: m2)). split.
+    - apply (tag_inserted_lemma path_props body_text banned first (a ++ b1) t b2 _ Hl Hen Hb Hok).
+      exists c0, m1, m2. repeat split; try assumption.
+    - cbn [c_tags upd_tags c_servers c_types c_enums c_inters c_info c_jsight]. rewrite Htags in Hm. repeat split; try reflexivity.
+      eapply Permutation_trans; [apply Permutation_sym, Permutation_middle|].
+      rewrite Hm. apply Permutation_middle.
+  Qed.
+End TagMove.
